@@ -190,14 +190,14 @@ def get_unreachable_nodes(g, start_nodes, radius=1):
 
     :returns: Returns the list of unreachable nodes.
     """
-    A = nx.adjacency_matrix(g, nodelist=range(len(g.nodes))).toarray()
-    if radius == 0:
-        D_sum = np.identity(A.shape[0])
-    else:
-        D = A.copy()
-        D_sum = A.copy()
-        for _ in range(radius - 1):
-            D = np.matmul(D, A)
-            D_sum += D
-    center_paths = D_sum[start_nodes].sum(axis=0)
-    return np.where(center_paths == 0)[0]
+    nodelist = sorted(g.nodes)
+    node_index = {n: i for i, n in enumerate(nodelist)}
+    A = nx.adjacency_matrix(g, nodelist=nodelist).toarray()
+    D = np.identity(A.shape[0], dtype=A.dtype)
+    D_sum = D.copy()
+    for _ in range(radius):
+        D = np.matmul(D, A)
+        D_sum += D
+    start_indices = [node_index[n] for n in start_nodes]
+    center_paths = D_sum[start_indices].sum(axis=0)
+    return np.array([nodelist[i] for i in np.where(center_paths == 0)[0]], dtype=int)
